@@ -7,7 +7,7 @@ D20 = 300         # two VLQ size classes; the magnitudes are the business of C07
 OBS = ['iterate', 'length', 'merged_track', 'save', 'play']
 EDITS = ['bad-save-then-repair', 'tracks.append', 'tracks.insert', 'del tracks[i]', 'tracks[i]=', 'tracks=', 'add_track', 'add_track(name)',
          'track.append', 'track.insert', 'track.pop', 'track[i]=', 'msg.time=', 'msg.attr=', 'tempo=',
-         'ticks_per_beat=', 'type=', 'track.name=']
+         'ticks_per_beat=', 'type=', 'track.name=', 'track[*]=copy', 'track.name=2']
 
 
 def _mk_track(cx, mido, tag, n, with_tempo=False):
@@ -89,6 +89,13 @@ def same_obs(cx, a, b):
     return cx.And(*c)
 
 
+def _name_took_effect(cx, tr, name):
+    """Documented meaning of assigning track.name, read off the CONTENTS of the track (the mirrored twin would
+    repeat a mistake): the first track_name message the track holds now carries the name."""
+    names = [m.name for m in list(tr) if getattr(m, 'type', None) == 'track_name']
+    cx.check(bool(names) and names[0] == name and tr.name == name, 'edit-took-effect')
+
+
 def apply_edit(cx, mido, mid, edit, k, handles=None):
     """One documented edit; returns False when the edit does not apply.  `handles`: the track objects the
     caller put into the file (edits go through them, as a user holding on to his lists would do)."""
@@ -168,13 +175,25 @@ def apply_edit(cx, mido, mid, edit, k, handles=None):
         if tr is None:
             return False
         tr.name = 'renamed'
+        _name_took_effect(cx, tr, 'renamed')
+    elif edit == 'track.name=2':
+        if tr is None:
+            return False
+        tr.name = 'again'
+        _name_took_effect(cx, tr, 'again')
+    elif edit == 'track[*]=copy':
+        # the usual rewriting loop: every message replaced by an (equal) copy of itself
+        if tr is None:
+            return False
+        for i in range(len(tr)):
+            tr[i] = tr[i].copy(time=tr[i].time)
     else:
         raise AssertionError(edit)
     return True
 
 
 @harness(labels=['same-as-fresh-file', 'independent-of-earlier-observations', 'no-hidden-state-beyond-the-merge-cache',
-                 'applied'])
+                 'applied', 'edit-took-effect'])
 def cache_step(cx, shape, pre, edits, post, plain=False):
     """observe (or not), edit(s), observe: must equal (a) the same observation on a freshly built MidiFile with
     the same contents and (b) the observation on a twin file that was built from the same values and edited the
@@ -214,6 +233,43 @@ def cache_step(cx, shape, pre, edits, post, plain=False):
     cx.observe('extra_attributes', sorted(set(vars(mid)) - public))
 
 
+LOADED_EDITS = ['msg.time=', 'msg.attr=', 'track[i]=', 'track.pop', 'track.insert', 'track.name=', 'track[*]=copy']
+
+
+@harness(labels=['loaded-file=built-file', 'loaded-file-after-edit=built-file-after-edit', 'applied'])
+def loaded_step(cx, edit, post):
+    """A file LOADED from bytes (with runs of byte-identical events: same status, data and delta) against the
+    same contents BUILT message by message: equal before, and equal after the same edit on both - a loaded file
+    is an ordinary file, its messages are separate objects."""
+    import mido
+
+    def build():
+        def note(n, t):
+            return mido.Message('note_on', note=n, velocity=64, time=t)
+        tr0 = mido.MidiTrack([mido.MetaMessage('track_name', name='Lead', time=0), note(60, 10), note(60, 10),
+                              note(60, 10), mido.MetaMessage('text', text='x', time=5),
+                              mido.MetaMessage('text', text='x', time=5), mido.MetaMessage('end_of_track', time=0)])
+        tr1 = mido.MidiTrack([note(60, 10), note(60, 10), mido.Message('control_change', control=7, value=1, time=0),
+                              mido.Message('control_change', control=7, value=1, time=0),
+                              mido.MetaMessage('end_of_track', time=0)])
+        return mido.MidiFile(type=1, ticks_per_beat=96, tracks=[tr0, tr1])
+    twin = build()
+    f = smf.out_file(cx)
+    build().save(file=f)
+    mid = mido.MidiFile(file=smf.in_file(cx, smf.file_bytes(cx, f)))
+    cx.check(same_obs(cx, observe(cx, mido, mid, 'merged_track'), observe(cx, mido, twin, 'merged_track')) and
+             [len(t) for t in mid.tracks] == [len(t) for t in twin.tracks], 'loaded-file=built-file')
+    if not apply_edit(cx, mido, mid, edit, 0):
+        return
+    apply_edit(cx, mido, twin, edit, 0)
+    cx.reach('applied')
+    a = observe(cx, mido, mid, post)
+    b = observe(cx, mido, twin, post)
+    cx.check(same_obs(cx, a, b), 'loaded-file-after-edit=built-file-after-edit')
+    cx.check(all(same_obs(cx, observe(cx, mido, mid, o), observe(cx, mido, twin, o)) for o in ('merged_track',)),
+             'loaded-file-after-edit=built-file-after-edit')
+
+
 @harness(labels=['returned-objects-are-detached'])
 def detached(cx, shape, obs):
     """What an observation hands out (messages of iteration / merged_track / play) belongs to the caller: changing
@@ -250,8 +306,8 @@ def detached(cx, shape, obs):
 
 BOUNDS = {
     'quick': 'files of 0..2 tracks x 0..2 messages (deltas in 0..300 and notes symbolic, a set_tempo from a menu), every pre-observation in '
-             '{none, iterate, length, play, save} (thorough: also merged_track); one shape has an end_of_track inside the track; x every one of 17 documented edits (plus a failed save followed by a repair; tracks also given as plain lists and edited through the reference the caller kept) (track index, message index '
-             'and new values symbolic) x every post-observation, compared with a freshly built file and with a never-observed twin; objects returned by observations are mutated by the caller; selected two-edit histories',
+             '{none, iterate, length, play, save} (thorough: also merged_track); one shape has an end_of_track inside the track; x every one of 19 documented edits (incl. every message replaced by an equal copy, renaming twice) (plus a failed save followed by a repair; tracks also given as plain lists and edited through the reference the caller kept) (track index, message index '
+             'and new values symbolic) x every post-observation, compared with a freshly built file and with a never-observed twin; objects returned by observations are mutated by the caller; selected two- and three-edit histories; a file LOADED from bytes holding runs of byte-identical events against the same contents built message by message, 7 edits x 3 observations',
     'thorough': 'all ordered pairs of edits between observations',
 }
 OUTSIDE = 'edits through vars(); files with more than 2 tracks x 2 messages; three or more edits in a row (covered by induction ' \
@@ -285,6 +341,15 @@ def JOBS(tier):
     for sh in ([1], [2, 1], [-3], []):
         for o in ('merged_track', 'iterate', 'play'):
             jobs.append((detached, {'shape': sh, 'obs': o}, {'width': 0, 'cost': 5}))
+    for e in LOADED_EDITS:
+        for post in ('iterate', 'save', 'length'):
+            jobs.append((loaded_step, {'edit': e, 'post': post}, {'width': 0, 'cost': 5}))
+    # a name that was set (and looked up) before the messages are replaced by equal copies, then set again
+    for seq in (['track.name=', 'track[*]=copy', 'track.name=2'], ['add_track(name)', 'track[*]=copy', 'track.name=2'],
+                ['track[*]=copy', 'msg.time='], ['track.name=', 'track[i]=', 'track.name=2']):
+        for pre in ('none', 'iterate'):
+            for post in ('iterate', 'save'):
+                jobs.append((cache_step, {'shape': [2, 1], 'pre': pre, 'edits': seq, 'post': post}, {'width': 0, 'cost': 10}))
     for a, b in pairs:
         for pre in ('iterate', 'length'):
             for post in ('iterate', 'length', 'save'):
